@@ -214,7 +214,7 @@ def run(ctx):
         ctx.violation("implementation violates C05: " + json.dumps({k: v for k, v in f.items() if k not in ("lines",)}, ensure_ascii=False)[:500],
                       {"kind": "impl-vs-oracle", "case": {k: v for k, v in f.items() if k != "lines"}, "lines": f["lines"]}, tag="oracle",
                       signature={"kind": "c05-oracle", "why": re.sub(r"U\+[0-9A-F]+", "U+…", f["why"])[:70], "language": f["config"]["Language"]})
-    found = bool(oracle_fail)
+    found = bool(ctx.violations)          # (failures attributed to a known finding do not count)
     if speech_run.HYP["auto_ok_false"] and not found:
         ctx.violation("a join received a string that holds the automatic-pause placeholder inside other text (hypothesis AutoOK of join_resolves_auto is not met by the code)",
                       {"kind": "theorem-hypothesis", "theorem": "MC.Props.C05.join_resolves_auto", "count": speech_run.HYP["auto_ok_false"]}, tag="hyp", no_input=True)
